@@ -327,3 +327,17 @@ Section SearchFacts.
     - rewrite (Hb b (or_introl eq_refl)). apply IH. intros d' Hin. apply Hb. right. exact Hin.
   Qed.
 End SearchFacts.
+
+(* ---- C12: when an included file (any token source) is exhausted, reading goes on in the source below it -- and so do
+   file lookups, which start in the directory stored with the innermost source ---- *)
+Lemma exhausted_source_is_popped budget pk' n s d rest :
+  f_stash s = None -> f_src s = (SrcToks [], d) :: rest ->
+  pk_loop budget pk' (S n) s = pk_loop budget pk' n (u_src s rest).
+Proof. intros Hs Hsrc. cbn [pk_loop]. rewrite Hs, Hsrc. cbn [src_next]. reflexivity. Qed.
+
+Lemma cur_dir_after_pop s d' src' rest : cur_dir (u_src s ((src', d') :: rest)) = d'.
+Proof. reflexivity. Qed.
+
+(* an @include pushes the included file's own directory: lookups inside it start there *)
+Lemma cur_dir_of_pushed s src d : cur_dir (u_src s ((src, d) :: f_src s)) = d.
+Proof. reflexivity. Qed.
